@@ -10,72 +10,198 @@ import (
 	"os"
 	"path/filepath"
 	"strings"
+	"sync"
 )
 
 // The driver does not run node/raft.go's processReady (it needs the whole server); it runs the
 // same operations in the ORDER that function uses. To keep that order tied to the source, it is
 // read from the working tree on every run: ExtractOrder parses node/raft.go (processReady,
-// persistRaftState) and wal/wal.go (Save) and lists, in source order with their guards, the
-// calls that matter: publishEntries, transport.Send, persistRaftState (-> SaveSnap, Save ->
-// saveEntry, saveState), node.HandleConfChanged (the wait-apply loop) and node.Advance.
-// If the code is reordered, the driver follows and the oracles judge the new order.
+// persistRaftState) and wal/wal.go (Save) and lists, in source order with the conditions on
+// their path, the calls that matter: publishEntries, transport.Send, persistRaftState
+// (-> SaveSnap, Save -> saveEntry, saveState), node.HandleConfChanged (the wait-apply loop) and
+// node.Advance. The conditions are kept as Go expressions and evaluated per Ready over the atoms
+//
+//	isMeNewLeader                          the Ready's SoftState turns this node leader
+//	raft.IsEmptyHardState(rd.HardState)    the Ready carries no hard-state change
+//	raft.IsEmptySnap(rd.Snapshot)          the Ready carries no snapshot
+//	should…(&rd)                           committed entries overlap the unstable ones
+//
+// (local boolean variables are resolved through their definitions; a flag set to true inside a
+// branch takes the condition of that branch; anything else counts as true). If the code is
+// reordered or re-guarded, the driver follows and the oracles judge the new behaviour.
 
-// Tok is one ordered operation of processReady with the guards recognised on its path.
+// G is one condition on the path to an operation (Neg: the else branch).
+type G struct {
+	Expr string `json:"e"`
+	Neg  bool   `json:"neg,omitempty"`
+}
+
+// Tok is one ordered operation of processReady.
 type Tok struct {
-	Op     string `json:"op"`     // publish | send | persist | wait | advance
-	Leader int    `json:"leader"` // +1 only when isMeNewLeader, -1 only when !isMeNewLeader, 0 any
-	Early  int    `json:"early"`  // +1 the "persist before apply" branch, -1 only when that branch did not run, 0 any
+	Op     string `json:"op"` // publish | send | persist | wait | advance
+	Guards []G    `json:"g,omitempty"`
+}
+
+// Env holds the value of the atoms for one Ready.
+type Env struct {
+	Leader, Overlap, EmptyHS, EmptySnap bool
 }
 
 // Order is the extracted (or built-in) operation order.
 type Order struct {
-	Toks    []Tok    `json:"toks"`
-	Persist []string `json:"persist"` // durable write order inside persistRaftState: psnap, pents, phs
-	Source  string   `json:"source"`  // "ast" or "builtin: <why>"
+	Toks    []Tok             `json:"toks"`
+	Persist []string          `json:"persist"` // durable write order inside persistRaftState: psnap, pents, phs
+	Defs    map[string]string `json:"defs"`    // local variable := expression
+	Flags   map[string][]G    `json:"flags"`   // local variable = true under these conditions
+	Source  string            `json:"source"`  // "ast" or "builtin: <why>"
 }
 
 // BuiltinOrder is node/raft.go as of the verified tree (used when extraction fails).
 func BuiltinOrder(why string) Order {
-	return Order{Toks: []Tok{{Op: "persist", Early: 1}, {Op: "publish"}, {Op: "send", Leader: 1}, {Op: "persist", Early: -1},
-		{Op: "wait", Leader: -1}, {Op: "send", Leader: -1}, {Op: "advance"}},
-		Persist: []string{"psnap", "pents", "phs"}, Source: "builtin: " + why}
+	return Order{Toks: []Tok{
+		{Op: "persist", Guards: []G{{Expr: "raft.IsEmptySnap(rd.Snapshot) && shouldPersistBeforeApply(&rd)"}}},
+		{Op: "publish"},
+		{Op: "send", Guards: []G{{Expr: "sendBeforePersist"}}},
+		{Op: "persist", Guards: []G{{Expr: "!persistedEarly"}}},
+		{Op: "wait", Guards: []G{{Expr: "!isMeNewLeader"}}},
+		{Op: "send", Guards: []G{{Expr: "!isMeNewLeader"}}},
+		{Op: "send", Guards: []G{{Expr: "!isMeNewLeader", Neg: true}, {Expr: "!sendBeforePersist"}}},
+		{Op: "advance"}},
+		Persist: []string{"psnap", "pents", "phs"},
+		Defs:    map[string]string{"sendBeforePersist": "isMeNewLeader && raft.IsEmptyHardState(rd.HardState)"},
+		Flags:   map[string][]G{"persistedEarly": {{Expr: "raft.IsEmptySnap(rd.Snapshot) && shouldPersistBeforeApply(&rd)"}}},
+		Source:  "builtin: " + why}
 }
 
 func (o Order) String() string {
 	var b []string
 	for _, t := range o.Toks {
 		s := t.Op
-		if t.Leader > 0 {
-			s += "[leader]"
-		} else if t.Leader < 0 {
-			s += "[!leader]"
-		}
-		if t.Early > 0 {
-			s += "[early]"
-		} else if t.Early < 0 {
-			s += "[!early]"
+		for _, g := range t.Guards {
+			if g.Neg {
+				s += "[not(" + g.Expr + ")]"
+			} else {
+				s += "[" + g.Expr + "]"
+			}
 		}
 		b = append(b, s)
 	}
-	return strings.Join(b, " ") + " | " + strings.Join(o.Persist, ",") + " | " + o.Source
+	var d []string
+	for k, v := range o.Defs {
+		d = append(d, k+":="+v)
+	}
+	for k, gs := range o.Flags {
+		x := k + "=true when"
+		for _, g := range gs {
+			if g.Neg {
+				x += " not(" + g.Expr + ")"
+			} else {
+				x += " " + g.Expr
+			}
+		}
+		d = append(d, x)
+	}
+	sortStrings(d)
+	return strings.Join(b, " ") + " | " + strings.Join(o.Persist, ",") + " | " + strings.Join(d, "; ") + " | " + o.Source
 }
 
-// Stages lists the sub-steps of one Ready. overlap = the Ready's committed entries overlap its
-// unstable entries and it carries no snapshot (the condition of the early-persist branch).
-func (o Order) Stages(leader, overlap bool) []string {
-	hasEarly := false
-	for _, t := range o.Toks {
-		if t.Op == "persist" && t.Early > 0 {
-			hasEarly = true
+func sortStrings(a []string) {
+	for i := 1; i < len(a); i++ {
+		for j := i; j > 0 && a[j] < a[j-1]; j-- {
+			a[j], a[j-1] = a[j-1], a[j]
 		}
 	}
-	early := hasEarly && overlap
+}
+
+var exprCache sync.Map
+
+func parseExprCached(s string) ast.Expr {
+	if v, ok := exprCache.Load(s); ok {
+		return v.(ast.Expr)
+	}
+	e, err := parser.ParseExpr(s)
+	if err != nil {
+		e = ast.NewIdent("true")
+	}
+	exprCache.Store(s, e)
+	return e
+}
+
+func (o Order) evalGuards(gs []G, env Env, depth int) bool {
+	for _, g := range gs {
+		v := o.eval(parseExprCached(g.Expr), env, depth)
+		if g.Neg {
+			v = !v
+		}
+		if !v {
+			return false
+		}
+	}
+	return true
+}
+
+func callName(e ast.Expr) string {
+	switch f := e.(type) {
+	case *ast.Ident:
+		return f.Name
+	case *ast.SelectorExpr:
+		return callName(f.X) + "." + f.Sel.Name
+	}
+	return ""
+}
+
+func (o Order) eval(e ast.Expr, env Env, depth int) bool {
+	if depth > 8 {
+		return true
+	}
+	switch x := e.(type) {
+	case *ast.ParenExpr:
+		return o.eval(x.X, env, depth)
+	case *ast.UnaryExpr:
+		if x.Op == token.NOT {
+			return !o.eval(x.X, env, depth)
+		}
+	case *ast.BinaryExpr:
+		switch x.Op {
+		case token.LAND:
+			return o.eval(x.X, env, depth) && o.eval(x.Y, env, depth)
+		case token.LOR:
+			return o.eval(x.X, env, depth) || o.eval(x.Y, env, depth)
+		}
+	case *ast.Ident:
+		switch x.Name {
+		case "true":
+			return true
+		case "false":
+			return false
+		case "isMeNewLeader":
+			return env.Leader
+		}
+		if gs, ok := o.Flags[x.Name]; ok {
+			return o.evalGuards(gs, env, depth+1)
+		}
+		if d, ok := o.Defs[x.Name]; ok {
+			return o.eval(parseExprCached(d), env, depth+1)
+		}
+	case *ast.CallExpr:
+		n := callName(x.Fun)
+		switch {
+		case strings.HasSuffix(n, "IsEmptyHardState"):
+			return env.EmptyHS
+		case strings.HasSuffix(n, "IsEmptySnap"):
+			return env.EmptySnap
+		case strings.HasPrefix(n, "should") || strings.Contains(n, ".should"):
+			return env.Overlap
+		}
+	}
+	return true // unknown condition: assume the operation runs
+}
+
+// Stages lists the sub-steps of one Ready.
+func (o Order) Stages(env Env) []string {
 	var out []string
 	for _, t := range o.Toks {
-		if (t.Leader > 0 && !leader) || (t.Leader < 0 && leader) {
-			continue
-		}
-		if (t.Early > 0 && !early) || (t.Early < 0 && early) {
+		if !o.evalGuards(t.Guards, env, 0) {
 			continue
 		}
 		if t.Op == "persist" {
@@ -115,95 +241,82 @@ func findFunc(f *ast.File, recv, name string) *ast.FuncDecl {
 	return nil
 }
 
-type guard struct {
-	text string
-	neg  bool
+type walker struct {
+	fset   *token.FileSet
+	call   func(name string, gs []G)
+	assign func(lhs string, rhs ast.Expr, define bool, gs []G)
 }
 
-// walk visits statements in source order, keeping the stack of enclosing if-conditions.
-func walkStmts(fset *token.FileSet, list []ast.Stmt, gs []guard, visit func(call string, gs []guard)) {
+func (w *walker) stmts(list []ast.Stmt, gs []G) {
 	for _, st := range list {
-		walkStmt(fset, st, gs, visit)
+		w.stmt(st, gs)
 	}
 }
 
-func walkStmt(fset *token.FileSet, st ast.Stmt, gs []guard, visit func(call string, gs []guard)) {
-	calls := func(n ast.Node) {
-		ast.Inspect(n, func(x ast.Node) bool {
-			switch c := x.(type) {
-			case *ast.FuncLit:
-				return false // goroutine bodies / closures are not part of the sequential order
-			case *ast.CallExpr:
-				visit(exprString(fset, c.Fun), gs)
-			}
-			return true
-		})
-	}
+func (w *walker) calls(n ast.Node, gs []G) {
+	ast.Inspect(n, func(x ast.Node) bool {
+		switch c := x.(type) {
+		case *ast.FuncLit:
+			return false // closures / goroutine bodies are not part of the sequential order
+		case *ast.CallExpr:
+			w.call(exprString(w.fset, c.Fun), gs)
+		}
+		return true
+	})
+}
+
+func (w *walker) stmt(st ast.Stmt, gs []G) {
+	with := func(g G) []G { return append(append([]G(nil), gs...), g) }
 	switch s := st.(type) {
 	case *ast.IfStmt:
 		if s.Init != nil {
-			walkStmt(fset, s.Init, gs, visit)
+			w.stmt(s.Init, gs)
 		}
-		calls(s.Cond)
-		c := exprString(fset, s.Cond)
-		walkStmts(fset, s.Body.List, append(append([]guard(nil), gs...), guard{c, false}), visit)
+		w.calls(s.Cond, gs)
+		c := exprString(w.fset, s.Cond)
+		w.stmts(s.Body.List, with(G{Expr: c}))
 		if s.Else != nil {
-			walkStmt(fset, s.Else, append(append([]guard(nil), gs...), guard{c, true}), visit)
+			w.stmt(s.Else, with(G{Expr: c, Neg: true}))
 		}
 	case *ast.BlockStmt:
-		walkStmts(fset, s.List, gs, visit)
+		w.stmts(s.List, gs)
 	case *ast.ForStmt:
-		walkStmts(fset, s.Body.List, gs, visit)
+		w.stmts(s.Body.List, gs)
 	case *ast.RangeStmt:
-		walkStmts(fset, s.Body.List, gs, visit)
+		w.stmts(s.Body.List, gs)
 	case *ast.SelectStmt:
 		for _, cc := range s.Body.List {
 			if c, ok := cc.(*ast.CommClause); ok {
 				if c.Comm != nil {
-					walkStmt(fset, c.Comm, gs, visit)
+					w.stmt(c.Comm, gs)
 				}
-				walkStmts(fset, c.Body, gs, visit)
+				w.stmts(c.Body, gs)
 			}
 		}
 	case *ast.SwitchStmt:
 		for _, cc := range s.Body.List {
 			if c, ok := cc.(*ast.CaseClause); ok {
-				walkStmts(fset, c.Body, gs, visit)
+				w.stmts(c.Body, gs)
 			}
 		}
 	case *ast.GoStmt, *ast.DeferStmt:
 		// not sequential
-	default:
-		calls(st)
-	}
-}
-
-// polarity of an identifier inside a guard stack: +1 required true, -1 required false, 0 absent
-func polarity(gs []guard, idents ...string) int {
-	for _, g := range gs {
-		for _, id := range idents {
-			i := strings.Index(g.text, id)
-			if i < 0 {
-				continue
+	case *ast.AssignStmt:
+		if len(s.Lhs) == 1 && len(s.Rhs) == 1 && w.assign != nil {
+			if id, ok := s.Lhs[0].(*ast.Ident); ok {
+				w.assign(id.Name, s.Rhs[0], s.Tok == token.DEFINE, gs)
 			}
-			neg := g.neg
-			if i > 0 && g.text[i-1] == '!' {
-				neg = !neg
-			}
-			if neg {
-				return -1
-			}
-			return 1
 		}
+		w.calls(st, gs)
+	default:
+		w.calls(st, gs)
 	}
-	return 0
 }
 
 // ExtractOrder reads the operation order from the working tree under repo.
 func ExtractOrder(repo string) Order {
 	fset := token.NewFileSet()
-	src := filepath.Join(repo, "node", "raft.go")
-	f, err := parser.ParseFile(fset, src, nil, 0)
+	f, err := parser.ParseFile(fset, filepath.Join(repo, "node", "raft.go"), nil, 0)
 	if err != nil {
 		return BuiltinOrder("parse " + err.Error())
 	}
@@ -212,41 +325,9 @@ func ExtractOrder(repo string) Order {
 	if pr == nil || ps == nil {
 		return BuiltinOrder("processReady/persistRaftState not found")
 	}
-	// which local variable remembers the early persist? the one assigned true in the branch
-	// guarded by the overlap predicate; its name is found by looking at the persist guards.
-	o := Order{Source: "ast"}
-	earlyVar := ""
-	// first pass: find the early branch: a persistRaftState call under a guard that calls a
-	// function named should…(rd) ; remember identifiers assigned in that branch
-	ast.Inspect(pr.Body, func(n ast.Node) bool {
-		is, ok := n.(*ast.IfStmt)
-		if !ok {
-			return true
-		}
-		c := exprString(fset, is.Cond)
-		if !strings.Contains(c, "should") {
-			return true
-		}
-		hasPersist := false
-		ast.Inspect(is.Body, func(x ast.Node) bool {
-			if ce, ok := x.(*ast.CallExpr); ok && strings.HasSuffix(exprString(fset, ce.Fun), ".persistRaftState") {
-				hasPersist = true
-			}
-			return true
-		})
-		if !hasPersist {
-			return true
-		}
-		for _, st := range is.Body.List {
-			if as, ok := st.(*ast.AssignStmt); ok && len(as.Lhs) == 1 && len(as.Rhs) == 1 {
-				if id, ok := as.Lhs[0].(*ast.Ident); ok && exprString(fset, as.Rhs[0]) == "true" {
-					earlyVar = id.Name
-				}
-			}
-		}
-		return true
-	})
-	walkStmts(fset, pr.Body.List, nil, func(call string, gs []guard) {
+	o := Order{Source: "ast", Defs: map[string]string{}, Flags: map[string][]G{}}
+	w := &walker{fset: fset}
+	w.call = func(call string, gs []G) {
 		var op string
 		switch {
 		case strings.HasSuffix(call, ".persistRaftState"):
@@ -262,39 +343,90 @@ func ExtractOrder(repo string) Order {
 		default:
 			return
 		}
-		t := Tok{Op: op, Leader: polarity(gs, "isMeNewLeader")}
-		if op == "persist" {
-			if polarity(gs, "should") > 0 {
-				t.Early = 1
-			} else if earlyVar != "" {
-				t.Early = polarity(gs, earlyVar) // "!persistedEarly" -> -1: runs only when the early branch did not
+		o.Toks = append(o.Toks, Tok{Op: op, Guards: append([]G(nil), gs...)})
+	}
+	w.assign = func(lhs string, rhs ast.Expr, define bool, gs []G) {
+		txt := exprString(fset, rhs)
+		if lhs == "isMeNewLeader" || lhs == "waitApply" {
+			return // atoms / handled by the driver itself
+		}
+		if define {
+			if txt == "false" || txt == "true" {
+				return // a flag: its meaning comes from the branch that sets it
+			}
+			if _, dup := o.Defs[lhs]; !dup {
+				o.Defs[lhs] = txt
+			}
+			return
+		}
+		if txt == "true" {
+			if _, dup := o.Flags[lhs]; !dup {
+				o.Flags[lhs] = append([]G(nil), gs...)
 			}
 		}
-		o.Toks = append(o.Toks, t)
-	})
+	}
+	w.stmts(pr.Body.List, nil)
+	// keep only definitions that some guard (transitively) mentions
+	used := map[string]bool{}
+	var mark func(txt string)
+	mark = func(txt string) {
+		for name := range o.Defs {
+			if !used[name] && containsIdent(txt, name) {
+				used[name] = true
+				mark(o.Defs[name])
+			}
+		}
+		for name, gs := range o.Flags {
+			if !used[name] && containsIdent(txt, name) {
+				used[name] = true
+				for _, g := range gs {
+					mark(g.Expr)
+				}
+			}
+		}
+	}
+	for _, t := range o.Toks {
+		for _, g := range t.Guards {
+			mark(g.Expr)
+		}
+	}
+	for name := range o.Defs {
+		if !used[name] {
+			delete(o.Defs, name)
+		}
+	}
+	for name := range o.Flags {
+		if !used[name] {
+			delete(o.Flags, name)
+		}
+	}
 	// persistRaftState: SaveSnap vs Save
 	var pseq []string
-	walkStmts(fset, ps.Body.List, nil, func(call string, gs []guard) {
+	w2 := &walker{fset: fset}
+	w2.call = func(call string, gs []G) {
 		switch {
 		case strings.HasSuffix(call, ".persistStorage.SaveSnap"):
 			pseq = append(pseq, "psnap")
 		case strings.HasSuffix(call, ".persistStorage.Save"):
 			pseq = append(pseq, "SAVE")
 		}
-	})
+	}
+	w2.stmts(ps.Body.List, nil)
 	// wal.Save: saveEntry vs saveState
 	walOrder := []string{"pents", "phs"}
 	if wf, err := parser.ParseFile(fset, filepath.Join(repo, "wal", "wal.go"), nil, 0); err == nil {
 		if sv := findFunc(wf, "WAL", "Save"); sv != nil {
 			var seen []string
-			walkStmts(fset, sv.Body.List, nil, func(call string, gs []guard) {
+			w3 := &walker{fset: fset}
+			w3.call = func(call string, gs []G) {
 				switch {
 				case strings.HasSuffix(call, ".saveEntry") && !contains(seen, "pents"):
 					seen = append(seen, "pents")
 				case strings.HasSuffix(call, ".saveState") && !contains(seen, "phs"):
 					seen = append(seen, "phs")
 				}
-			})
+			}
+			w3.stmts(sv.Body.List, nil)
 			if len(seen) == 2 {
 				walOrder = seen
 			}
@@ -307,7 +439,6 @@ func ExtractOrder(repo string) Order {
 			o.Persist = append(o.Persist, p)
 		}
 	}
-	// sanity: every op must be present, otherwise fall back
 	need := map[string]bool{"persist": false, "publish": false, "send": false, "wait": false, "advance": false}
 	for _, t := range o.Toks {
 		need[t.Op] = true
@@ -321,6 +452,27 @@ func ExtractOrder(repo string) Order {
 		return BuiltinOrder(fmt.Sprintf("persistRaftState order %v", o.Persist))
 	}
 	return o
+}
+
+func containsIdent(txt, name string) bool {
+	i := 0
+	for {
+		j := strings.Index(txt[i:], name)
+		if j < 0 {
+			return false
+		}
+		j += i
+		before := j == 0 || !isIdentChar(txt[j-1])
+		after := j+len(name) >= len(txt) || !isIdentChar(txt[j+len(name)])
+		if before && after {
+			return true
+		}
+		i = j + len(name)
+	}
+}
+
+func isIdentChar(c byte) bool {
+	return c == '_' || (c >= 'a' && c <= 'z') || (c >= 'A' && c <= 'Z') || (c >= '0' && c <= '9') || c == '.'
 }
 
 func contains(l []string, s string) bool {
